@@ -382,7 +382,9 @@ def get_formatted_string_pattern():
 
 
 def get_any_string_pattern():
-    prefix = r"[bBfFrRuU]{,4}"
+    # a prefix is not the tail of an identifier or keyword: in `x or'y'` the
+    # string starts at the quote
+    prefix = r"(?:(?<!\w)[bBfFrRuU]{1,4})?"
     return get_string_pattern_with_prefix(
         prefix,
         prefix_group_name="prefix",
